@@ -298,6 +298,20 @@ def run_case(case):
             if want is not None and abs(row["u_w_per_m2k"] - want) > 1e-12 * max(1, abs(want)):
                 vs.append(viol("pipe_std_parameter", "std type %s: u_w_per_m2k %r, library implies %r" % (r["std_type"], row["u_w_per_m2k"], want),
                                col="u_w_per_m2k"))
+            # an override for one pipe must neither change the library entry nor later pipes of the same type
+            lib_before = dict(net.std_types["pipe"][r["std_type"]])
+            pp.create_pipe(net, j[0], j[1], r["std_type"], 0.1, k_mm=1.5, u_w_per_m2k=7.0)
+            idx3 = pp.create_pipe(net, j[0], j[1], r["std_type"], 0.1)
+            lib_after = dict(net.std_types["pipe"][r["std_type"]])
+            for key in lib_before:
+                a_, b_ = lib_before[key], lib_after.get(key)
+                if not ((isinstance(a_, float) and isinstance(b_, float) and np.isnan(a_) and np.isnan(b_)) or a_ == b_):
+                    vs.append(viol("std_type_library_modified", "std type %s: library entry %s changed %r -> %r by creating a pipe with an override" % (
+                        r["std_type"], key, a_, b_), key=key))
+                    break
+            if abs(net.pipe.at[idx3, "k_mm"] - float(r["k_mm"])) > 1e-12:
+                vs.append(viol("pipe_std_parameter", "std type %s: a later pipe got k_mm %r, Pipe.csv says %r" % (r["std_type"], net.pipe.at[idx3, "k_mm"], r["k_mm"]),
+                               col="k_mm_after_override"))
             if row["std_type"] != r["std_type"]:
                 vs.append(viol("pipe_std_parameter", "std type column %r vs %r" % (row["std_type"], r["std_type"]), col="std_type"))
     return {"status": "ok", "violations": vs, "nontrivial": n > 0, "sig": core.jhash(case), "info": {"oracle_comparisons": n}}
